@@ -99,7 +99,7 @@ _RE_STATES = re.compile(r"(\d+) states generated, (\d+) distinct states found")
 _RE_DEPTH = re.compile(r"depth of the complete state graph search is (\d+)")
 _RE_INV = re.compile(r"Invariant (\S+) is violated")
 _RE_APROP = re.compile(r"Action property (\S+) is violated")
-_RE_COV = re.compile(r"^<(\w+) line \d+, col \d+ to line \d+, col \d+ of module (\w+)>: (\d+):(\d+)")
+_RE_COV = re.compile(r"^<(\w+) line \d+, col \d+ to line \d+, col \d+ of module (\w+)(?: \([\d ]+\))?>: (\d+):(\d+)")
 
 
 def _parse_emitted(stdout: str) -> list[Any]:
@@ -175,7 +175,13 @@ def tlc(
         if mc:
             res.coverage[mc.group(1)] = (int(mc.group(3)), int(mc.group(4)))
     res.emitted = _parse_emitted(p.stdout)
-    finished = "Model checking completed. No error has been found." in p.stdout
+    if any(x.startswith("-simulate") for x in extra):
+        finished = "Error:" not in p.stdout and "traces generated" in p.stdout
+        m = re.search(r"The number of states generated: (\d+)", p.stdout)
+        if m:
+            res.generated = res.distinct = int(m.group(1))
+    else:
+        finished = "Model checking completed. No error has been found." in p.stdout
     res.ok = finished and p.returncode == 0
     if expect_ok and not res.ok:
         if res.violated:
@@ -191,7 +197,8 @@ def tlc(
 
 
 def _tail(s: str, n: int = 40) -> str:
-    return "\n".join(s.splitlines()[-n:])
+    lines = [l for l in s.splitlines() if not l.startswith('"')]
+    return "\n".join(l[:400] for l in lines[-n:])
 
 
 def check_not_vacuous(res: TLCResult, actions: Iterable[str]) -> None:
@@ -200,6 +207,33 @@ def check_not_vacuous(res: TLCResult, actions: Iterable[str]) -> None:
             raise MachineryError(f"vacuous: action {a} of {res.module} never taken")
         if a not in res.coverage:
             raise MachineryError(f"coverage: action {a} of {res.module} not reported")
+
+
+# ------------------------------------------------------------- trace validation
+
+
+def validate_trace(module: str, events: Sequence[dict], *, cfg: str | None = None, timeout: int = 900,
+                   tag: str = "") -> tuple[TLCResult, dict]:
+    """Write events as ndjson, let TLC judge them with spec/<module>.tla, return its verdict record
+    ({'verdict': 'done', 'n': ..., 'bad': [...]})."""
+    d = WORK / "traces"
+    d.mkdir(parents=True, exist_ok=True)
+    path = d / f"{module}-{tag}-{os.getpid()}-{time.time_ns()}.ndjson"
+    with open(path, "w") as fh:
+        for e in events:
+            fh.write(json.dumps(e, default=_jd) + "\n")
+    res = tlc(module, cfg, workers=1, timeout=timeout, env={"TRACE_FILE": str(path)}, tag=tag)
+    verdicts = [x for x in res.emitted if isinstance(x, dict) and x.get("verdict") == "done"]
+    if not verdicts:
+        raise MachineryError(f"trace spec {module} produced no verdict\n" + _tail(res.stdout))
+    v = verdicts[-1]
+    if v.get("n") != len(events):
+        raise MachineryError(f"trace spec {module} judged {v.get('n')} of {len(events)} events")
+    try:
+        path.unlink()
+    except OSError:
+        pass
+    return res, v
 
 
 # --------------------------------------------------------------------- sampling
